@@ -300,7 +300,6 @@ func runCheck(id, tier, replay string) int {
 	if !ok {
 		fatal("unknown check %s", id)
 	}
-	h := harnesses[ck.Harness]
 	start := time.Now()
 	os.MkdirAll(filepath.Join(verifRoot, "out"), 0o755)
 	dir, err := os.MkdirTemp(filepath.Join(verifRoot, "out"), "build-"+id+"-")
@@ -335,24 +334,55 @@ func runCheck(id, tier, replay string) int {
 	harnessFailure := ""
 
 	type pass struct {
+		part Part
 		race bool
 		tag  string
 	}
+	parts := ck.Parts
+	if len(parts) == 0 {
+		parts = []Part{{Harness: ck.Harness, Func: ck.Func, Race: ck.Race}}
+	}
+	if replay != "" {
+		// a replay file names the part that produced it
+		var rf struct {
+			Part string `json:"part"`
+		}
+		if b, err := os.ReadFile(replay); err == nil && json.Unmarshal(b, &rf) == nil && rf.Part != "" {
+			var only []Part
+			for _, pt := range parts {
+				if pt.Func == rf.Part {
+					only = append(only, Part{Harness: pt.Harness, Func: pt.Func})
+				}
+			}
+			if len(only) > 0 {
+				parts = only
+			}
+		}
+	}
 	passes := []pass{}
-	if !ck.RaceOnly {
-		passes = append(passes, pass{false, "plain"})
+	for _, pt := range parts {
+		if !ck.RaceOnly {
+			passes = append(passes, pass{pt, false, "plain"})
+		}
+		if pt.Race {
+			passes = append(passes, pass{pt, true, "race"})
+		}
 	}
-	if ck.Race {
-		passes = append(passes, pass{true, "race"})
-	}
-	for _, p := range passes {
-		bin, rep, err := buildHarness(h, dir, p.race)
+	for pi, p := range passes {
+		ph := harnesses[p.part.Harness]
+		bin, rep, err := buildHarness(ph, dir, p.race)
 		if err != nil {
 			harnessFailure = "build failed: " + err.Error()
 			break
 		}
 		instr = rep
-		rs := runWorkers(bin, ck, tier, replay, dir, workers, deadline, p.tag)
+		ck2 := *ck
+		ck2.Func = p.part.Func
+		tag := fmt.Sprintf("%s%d", p.tag, pi)
+		if p.race {
+			tag = "race"
+		}
+		rs := runWorkers(bin, &ck2, tier, replay, dir, workers, deadline, tag)
 		for i, r := range rs {
 			if r.crashed {
 				if ck.CrashIsViolation && r.infl != "" {
@@ -361,7 +391,7 @@ func runCheck(id, tier, replay string) int {
 					merged.addViolation(Violation{Key: id + "/worker-crash/" + crashSig(r.log), Detail: "worker process died while executing the case: " + tail(r.log, 800), Case: cas})
 					merged.Exhaustive = false
 				} else {
-					merged.Notes = append(merged.Notes, fmt.Sprintf("worker %d (%s) died without a report; its shard is not covered: %s", i, p.tag, tail(r.log, 1500)))
+					merged.Notes = append(merged.Notes, fmt.Sprintf("worker %d (%s %s) died without a report; its shard is not covered: %s", i, p.part.Func, p.tag, tail(r.log, 1500)))
 					merged.Exhaustive = false
 					merged.WorkerCrashes++
 				}
@@ -370,6 +400,13 @@ func runCheck(id, tier, replay string) int {
 			merged.add(r.rep, p.tag)
 			if p.race {
 				merged.addRaceLogs(dir, i, id)
+			}
+		}
+		if p.race {
+			// race logs of this pass have been consumed
+			old, _ := filepath.Glob(filepath.Join(dir, "racelog-*"))
+			for _, f := range old {
+				os.Remove(f)
 			}
 		}
 	}
@@ -397,7 +434,7 @@ func runCheck(id, tier, replay string) int {
 		path := filepath.Join(replayDir, fmt.Sprintf("%s-%s.json", id, sanitize(k)))
 		for _, v := range merged.Violations {
 			if v.Key == k {
-				b, _ := jsonMarshal(map[string]interface{}{"property": id, "check": ck.Func, "key": k, "detail": v.Detail, "case": v.Case})
+				b, _ := jsonMarshal(map[string]interface{}{"property": id, "part": v.Part, "key": k, "detail": v.Detail, "case": v.Case})
 				os.WriteFile(path, b, 0o644)
 				lines = append(lines, fmt.Sprintf("VIOLATION property=%s replay=%s key=%s count=%d :: %s", id, path, k, merged.ViolationKeys[k], oneLine(v.Detail, 300)))
 				break
